@@ -122,7 +122,7 @@ def run_history(ctx, rng, script=None):
         for _step in range(n_steps):
             def gen_op():
                 op = rng.choice(['ctor', 'add', 'radd', 'iadd', 'iadd', 'self_iadd', 'join', 'idx', 'slice', 'slice',
-                                 'fixed', 'fmt', 'fmt', 'leaf', 'iadd_inplace', 'add_empty'])
+                                 'fixed', 'fmt', 'fmt', 'leaf', 'iadd_inplace', 'add_empty', 'iadd_seq'])
                 a, b = choose(len(pool)), choose(len(pool))
                 rec = [op, a, b]
                 la = len(pool[a][1])
@@ -172,6 +172,20 @@ def run_history(ctx, rng, script=None):
                         continue
                     r = "pq" + b
                     mr = [('p', sgr.DEFAULT), ('q', sgr.DEFAULT)] + mb
+                elif op == 'iadd_seq':
+                    # '+=' with a list / tuple of parts, or applied to a chunk (which gives a text)
+                    if not is_text(a):
+                        continue
+                    r = CHText(a) if isinstance(a, CHText) else a
+                    c_obj, mc = pool[(rec[1] + rec[2]) % len(pool)]
+                    if isinstance(a, CHText):
+                        r += [b, c_obj] if rec[2] % 2 else (b, c_obj)
+                        mr = ma + mb + mc
+                    else:
+                        r += b
+                        mr = ma + mb
+                        if sgr.cells(str(a)) != ma:
+                            fail("iadd-on-copy-modified-the-original", {"op": rec})
                 elif op == 'add_empty':
                     if not is_text(a):
                         continue
